@@ -402,10 +402,8 @@ def crossing_facts(ctx, R="C07.crossing"):
     a_ = [str(rm.at(call[1], x)) for x in call[0].args]
     ctx.check(a_[2] == "self.crossing_sustain_count(crossing)*self.crossing_weight(crossing)", R, mm, "F3 checker weight %s" % a_[2],
               "F3: expected count = combination weight x crossing weight x sustain", "sample_mismatch_crossing passes weight `%s`" % a_[2], call[0])
-    body = ast.unparse(wl["stmt"])
-    ctx.check("end = start + c_crossing_size" in body and "if end > trial_count:" in body and "or_less = True" in body and
-              "or_less = False" in body and a_[5] == "or_less" and a_[0] == "start" and a_[1] in ("end",) or
-              (a_[5] == "or_less" and "or_less = True" in body), R, mm, "F4 checker partial chunk",
+    T_, S_ = "self.trials_per_sample()", "start + self.crossing_sizes[i]*self.crossing_weight(crossing)"
+    ctx.check(a_[0] == "start" and a_[1] == "ite((%s < %s), %s, %s)" % (T_, S_, T_, S_) and a_[5] == "(%s < %s)" % (T_, S_), R, mm, "F4 checker partial chunk",
               "F4: equality for full chunks, at-most for the trailing partial chunk",
               "the full/partial chunk distinction of sample_mismatch_crossing changed")
 
